@@ -197,11 +197,17 @@ Section Tree.
       (map (fun a => (of_qname (fst a), of_wval c (snd a))) (g_attr c u ign var x))
       (e_attr c u ign var x).
   Proof.
-    intros Hw Hf. destruct (wf_attr_inv var Hw) as [Hk [Hc [Hcl [Hfa [Hr [t [Ht [Hs Hd]]]]]]]].
+    intros Hw Hf. destruct (wf_attr_inv var Hw) as [Hk [Hc [Hcl [Hfa [Hr [t [Ht Hty0]]]]]]].
     unfold g_attr, e_attr.
     assert (Hsh : x <> VNone -> (is_array x && negb (py_truthy x)) = false -> enc_shape (v_format var) x
                   /\ e_atoms (v_format var) x <> []).
     { intros Hx Hne. unfold Fits.fits_attr, vtype in Hf. rewrite Ht in Hf.
+      destruct Hty0 as [[Hs Hd]|[Et [Htf0 Hd0]]].
+      2:{ subst t. rewrite Htf0 in Hf. cbn [ptype_eqb] in Hf.
+          destruct x as [|p| | | | |]; try discriminate; [congruence|].
+          unfold qleaf_ok in Hf. apply andb_true_iff in Hf as [_ Hq]. destruct p as [| | | | | |q1| |]; try discriminate Hq.
+          split; [apply es_qname|discriminate]. }
+      rewrite (simple_not_qname t Hs) in Hf.
       destruct (v_tokens_factory var).
       - destruct x as [| |tt l| | | |]; try discriminate. apply andb_true_iff in Hf as [_ Hf].
         split; [eapply es_tokens; exact Hf|]. destruct l; [discriminate Hne|]. discriminate.
@@ -382,8 +388,11 @@ Section Tree.
           { intros Hx. destruct (v_tokens_factory var).
             - destruct x as [| |tt l| | | |]; try discriminate Hft. apply andb_true_iff in Hft as [_ Htk].
               eapply es_tokens; exact Htk.
-            - destruct x as [|p| | | | |]; try discriminate Hft; [congruence|]. apply andb_true_iff in Hft as [Hp _].
-              eapply es_leaf; exact Hp. }
+            - destruct x as [|p| | | | |]; try discriminate Hft; [congruence|].
+              destruct (ptype_eqb t TQName) eqn:Etq.
+              + unfold qleaf_ok in Hft. apply andb_true_iff in Hft as [_ Hq]. destruct p as [| | | | | |q1| |]; try discriminate Hq.
+                apply es_qname.
+              + apply andb_true_iff in Hft as [Hp _]. eapply es_leaf; exact Hp. }
           destruct x eqn:Ex; try (split; reflexivity);
             (cbn [flat_map forallb]; rewrite app_nil_r; rewrite den_data; [split; reflexivity|apply Hsh; discriminate]). }
       split.
